@@ -1,4 +1,72 @@
-From HP Require Import Base.Prelude KV.Types KV.FS KV.Handle KV.Run.
-Example C16_smoke : snapshot kv_init <> [].
-Proof. vm_compute. discriminate. Qed.
-Print Assumptions C16_smoke.
+(* C16 -- Directory listings are complete, duplicate-free, ordered, and page correctly.
+   Model: [read_dir] (keyvalue directory handle ReadDir, KV/Handle.v), [kv_readdir]/[sort_entries]
+   (io/fs.ReadDir used by hackpadfs.ReadDir: ReadDir(-1) then sort by name, KV/Run.v).  The pure pager
+   [page]/[pages] is what ReadDir(n>0) does with the memoised list of child names; [read_dir_is_page]
+   ties the handle model to it.  No bound on the number of children or on the page sizes.
+   Other layers (mount, Sub, cache, tar, os.FS) are covered by the harness's oracle, not by theorems. *)
+From HP Require Import Base.Prelude Base.Path KV.Types KV.FS KV.Handle KV.Run KV.HandleProofs KV.ListingProofs.
+From Coq Require Import Permutation.
+Open Scope nat_scope.
+
+(* Reading in pages of any positive sizes (adding up to at least the number of children) yields every
+   child exactly once, in order, and nothing else. *)
+Theorem C16_pages_partition : forall names ns,
+  Forall (fun n => 0 < n) ns -> length names <= fold_right Nat.add 0 ns ->
+  concat (fst (pages names 0 ns)) = names.
+Proof. exact pages_partition. Qed.
+Print Assumptions C16_pages_partition.
+
+(* Any prefix of the paging delivers a consecutive piece, every page non-empty. *)
+Theorem C16_pages_consecutive : forall names ns off, Forall (fun n => 0 < n) ns -> off <= length names ->
+  let '(ps, o) := pages names off ns in
+  concat ps = sublist off o names /\ off <= o <= length names /\ Forall (fun p => p <> []) ps.
+Proof. exact pages_consecutive. Qed.
+Print Assumptions C16_pages_consecutive.
+
+(* Never an empty page with a nil error, never more than n entries; io.EOF exactly when none remain. *)
+Theorem C16_page_never_empty : forall names off n p o, 0 < n -> page names off n = Some (p, o) -> p <> [] /\ length p <= n.
+Proof. exact page_never_empty. Qed.
+Print Assumptions C16_page_never_empty.
+
+Theorem C16_eof_iff_exhausted : forall names off n, page names off n = None <-> length names <= off.
+Proof. exact page_eof_iff. Qed.
+Print Assumptions C16_eof_iff_exhausted.
+
+(* The directory handle's ReadDir(n>0) is that pager over the memoised names. *)
+Theorem C16_handle_readdir_is_the_pager : forall st h n names,
+  h_closed h = false -> h_names h = Some (inl names) -> (0 < n)%Z -> (0 <= h_off h)%Z ->
+  let '(st', h', l, e) := read_dir st h n in
+  match page names (Z.to_nat (h_off h)) (Z.to_nat n) with
+  | None => l = [] /\ e = Some (Bare EEOF) /\ h' = h
+  | Some (p, o) => e = None -> map fst l = p /\ h_off h' = Z.of_nat o
+  end.
+Proof. exact read_dir_is_page. Qed.
+Print Assumptions C16_handle_readdir_is_the_pager.
+
+(* A non-positive count returns all entries with a nil error. *)
+Theorem C16_nonpositive_count_returns_all : forall st h n names,
+  h_closed h = false -> h_names h = Some (inl names) -> (n <= 0)%Z ->
+  let '(st', h', l, e) := read_dir st h n in e = None -> map fst l = names.
+Proof. exact read_dir_all. Qed.
+Print Assumptions C16_nonpositive_count_returns_all.
+
+(* Listing a non-directory fails with ErrNotDir. *)
+Theorem C16_listing_a_non_directory_fails : forall st h n,
+  st_fault st = None -> h_closed h = false -> h_names h = None -> is_dir (h_mode h) = false ->
+  let '(_, _, l, e) := read_dir st h n in l = [] /\ e = Some (PathErr (h_path h) ENOTDIR).
+Proof. exact read_dir_notdir. Qed.
+Print Assumptions C16_listing_a_non_directory_fails.
+
+(* Listing by name: sorted, and exactly the entries of the directory (a permutation of the page). *)
+Theorem C16_by_name_listing_sorted : forall l, sorted_by_name (sort_entries l).
+Proof. exact sort_entries_sorted. Qed.
+Print Assumptions C16_by_name_listing_sorted.
+
+Theorem C16_by_name_listing_same_entries : forall l, Permutation l (sort_entries l).
+Proof. exact sort_entries_perm. Qed.
+Print Assumptions C16_by_name_listing_same_entries.
+
+Example C16_nonvacuous :
+  pages [S "a"; S "b"; S "c"; S "d"; S "e"] 0 [2; 1; 7; 1] = ([[S "a"; S "b"]; [S "c"]; [S "d"; S "e"]], 5).
+Proof. vm_compute. reflexivity. Qed.
+Print Assumptions C16_nonvacuous.
